@@ -331,7 +331,10 @@ def _value_case(case, res):
     if type(w) is not want_type:
       return res.violate('%s of %s returned a %s (%s)' % (name, core.safe_repr(v), type(w).__name__, core.safe_repr(w)), law='roundtrip-type', route=name, **sig)
     if _has_nan(v):
-      same = _loose_snap(v) == _loose_snap(w)
+      # (NaN is not == to itself: structural comparison; on the hide-default route numbers are compared by value,
+      # see the note below)
+      lenient = name == 'json_hide_default'
+      same = _loose_snap(v, lenient) == _loose_snap(w, lenient)
     else:
       try:
         same = pg.eq(v, w) and pg.eq(w, v)
@@ -373,8 +376,23 @@ def _value_case(case, res):
   return res
 
 
-def _loose_snap(v):
-  """snapshot in which plain and symbolic containers of the same content coincide."""
+def _loose_snap(v, lenient=False):
+  """snapshot in which plain and symbolic containers of the same content coincide (lenient: numbers by value)."""
+  if lenient:
+    if isinstance(v, (bool, int, float)):
+      return ('num', 'nan' if isinstance(v, float) and math.isnan(v) else repr(float(v) + 0.0))
+    if isinstance(v, (pg.List, list)) and not isinstance(v, tuple):
+      return ('list', tuple(_loose_snap(x, True) for x in (v.sym_values() if isinstance(v, pg.List) else v)))
+    if isinstance(v, (pg.Dict, dict)):
+      items = v.sym_items() if isinstance(v, pg.Dict) else v.items()
+      return ('dict', tuple(sorted(((repr(k), _loose_snap(x, True)) for k, x in items))))
+    if isinstance(v, tuple):
+      return ('tuple', tuple(_loose_snap(x, True) for x in v))
+    if isinstance(v, pg.Symbolic) and not isinstance(v, pg.typing.ValueSpec):
+      try:
+        return (type(v).__name__, tuple((k, _loose_snap(x, True)) for k, x in v.sym_items()))
+      except Exception:   # pylint: disable=broad-except
+        return (type(v).__name__, repr(v))
   if isinstance(v, (pg.List, list)) and not isinstance(v, tuple):
     items = v.sym_values() if isinstance(v, pg.List) else v
     return ('list', tuple(_loose_snap(x) for x in items))
